@@ -229,7 +229,16 @@ def matrix_package(quick: bool):
                                      ("recs", S(N("MxArrRec"))), ("dyn", A(P("int64"), None)), ("frames", S(A(P("int32"), 2)))]))
     # arrays without a declared rank: rank 0 (one element, shape []) is a legal value
     protos.append(Proto("MxDynamic", [("d", A(P("int32"), None)), ("ds", S(A(P("float64"), None))), ("dv", V(A(P("int32"), None))), ("du", U((("arr", A(P("int32"), None)), ("text", P("string"))), False, True))]))
-    return Pkg("Matrix", [Rc, Rc2, E1, F1, Gen, AllOpt, Al("MxLabel", P("string")), Al("MxCount", P("uint16")), Al("MxRemark", Opt(P("string"))),
+    # maps whose key type is a type parameter (of a generic record, of a generic alias, of an alias of that alias): instantiated with string and an alias of
+    # string they are JSON objects, with integers / enums / dates arrays of pairs - the shape is only known at the instantiation
+    Lookup = Rec("MxLookup", [("name", P("string")), ("entries", M(TP("K"), TP("V"))), ("nested", M(P("string"), M(TP("K"), TP("V"))))], ("K", "V"))
+    GMap = Al("MxGMap", M(TP("K"), TP("V")), ("K", "V"))
+    GMap2 = Al("MxGMapOfInt", N("MxGMap", (TP("K"), P("int32"))), ("K",))
+    protos.append(Proto("MxGenericMaps", [("bySt", N("MxLookup", (P("string"), P("int32")))), ("byLabel", N("MxLookup", (N("MxLabel"), P("string")))), ("byInt", N("MxLookup", (P("int32"), P("string")))),
+                                          ("byCount", N("MxLookup", (N("MxCount"), P("int32")))), ("aSt", N("MxGMap", (P("string"), N("MxRec")))), ("aInt", N("MxGMap", (P("uint16"), P("string")))),
+                                          ("a2St", N("MxGMapOfInt", (P("string"),))), ("a2Long", N("MxGMapOfInt", (P("int64"),))), ("items", S(N("MxLookup", (P("string"), Opt(P("int32")))))),
+                                          ("inUnion", U((("m", N("MxGMap", (P("string"), P("int32")))), ("n", P("int32"))), False, True)), ("vec", V(N("MxGMap", (N("MxLabel"), P("int32")))))]))
+    return Pkg("Matrix", [Rc, Rc2, E1, F1, Gen, AllOpt, Lookup, GMap, GMap2, Al("MxLabel", P("string")), Al("MxCount", P("uint16")), Al("MxRemark", Opt(P("string"))),
                           Al("MxNullU", U(((None, P("int32")), (None, P("string"))), True)), Al("MxRemark2", N("MxRemark")), Aliased, ArrRec, FM, FO, FZ, FlagRec] + protos)
 
 
